@@ -127,6 +127,24 @@ func runC06(raw json.RawMessage, w *Writer) {
 	}
 	w.Emit(Ev{"ev": "reset", "class": c.Class, "mtu": c.Mtu, "pt": c.Pt, "ssrc": c.Ssrc, "seqstart": c.SeqStart, "ts0": c.Ts0, "abs0": c.Abs0,
 		"payloader": c.Payloader})
+	// packets handed out by earlier calls are kept (a pacer queue): they must not change later
+	type keptPkt struct {
+		p    *rtp.Packet
+		snap []byte
+	}
+	var kept []keptPkt
+	snapOf := func(p *rtp.Packet) []byte {
+		b, _ := json.Marshal(Ev{"h": projHeader(&p.Header), "pl": ints(p.Payload), "ps": int(p.PaddingSize)})
+		return b
+	}
+	stable := func() bool {
+		for _, kp := range kept {
+			if !bytes.Equal(snapOf(kp.p), kp.snap) {
+				return false
+			}
+		}
+		return true
+	}
 	for k, op := range c.Ops {
 		// a fresh, distinguishable send instant per call
 		instSec, instJ = int64(c.Inst0[0])+int64(k), (int64(c.Inst0[1])+int64(37*k))%512
@@ -146,8 +164,12 @@ func runC06(raw json.RawMessage, w *Writer) {
 				}
 			}
 			ts, _ := rtp.VerifPacketizerTimestamp(pz)
+			earlier := stable()
+			for _, p := range pkts {
+				kept = append(kept, keptPkt{p, snapOf(p)})
+			}
 			w.Emit(Ev{"ev": "packetize", "res": r, "len": op.Len, "samples": op.Samples, "inst": []int{int(instSec), int(instJ)},
-				"nfrags": len(frags), "budget": rec.budget, "pkts": pe, "ts_after": be32(ts)})
+				"nfrags": len(frags), "budget": rec.budget, "pkts": pe, "ts_after": be32(ts), "earlier_packets_unchanged": earlier})
 		case "skip":
 			r, _ := guard(func() { pz.SkipSamples(u32of(op.Samples)) })
 			ts, _ := rtp.VerifPacketizerTimestamp(pz)
@@ -159,7 +181,11 @@ func runC06(raw json.RawMessage, w *Writer) {
 			for _, p := range pkts {
 				pe = append(pe, pktEv(p, nil, false))
 			}
-			w.Emit(Ev{"ev": "pad", "res": r, "n": op.N, "pkts": pe})
+			earlier := stable()
+			for _, p := range pkts {
+				kept = append(kept, keptPkt{p, snapOf(p)})
+			}
+			w.Emit(Ev{"ev": "pad", "res": r, "n": op.N, "pkts": pe, "earlier_packets_unchanged": earlier})
 		case "enable":
 			r, _ := guard(func() { pz.EnableAbsSendTime(op.N) })
 			w.Emit(Ev{"ev": "enable", "res": r, "id": op.N})
